@@ -443,6 +443,9 @@ fn run_case(seed: u64, idx: u64, tier: Tier, out: &mut CaseOut) {
             p.boundary = if rng.chance(1, 3) { Some(widths[1].clamp(1, 60)) } else { None };
             p.id_permille = 60;
             p.a_name = true;
+            p.stray_in_table = rng.chance(1, 3);
+            p.edge_space = rng.chance(1, 3);
+            p.href_controls = rng.chance(1, 3);
             let doc = gen_doc(&mut rng, &p);
             input = if rng.chance(1, 2) {
                 ser_canonical(&doc)
